@@ -193,6 +193,7 @@ def decide(mod, ctx) -> int:
             'broken_obligations': broken,
             'how_to_run': f'./check {prop} --replay <this file>',
         })
+        ctx.log(f'violation [{v.signature}] {v.what[:300]}')
         print(f'VIOLATION property={prop} replay={p}')
         rc = 1
     if broken and not new_v:
